@@ -104,6 +104,8 @@ theorem handle_out (app : App) (s : Slots) (r : Req) (hp : r.pathOK = true) :
     (handle app s r).2.2 = (settle (handleFlow app r)).2 ∧
     ((settle (handleFlow app r)).1 = [.stderr] → Event.stderr ∈ (handle app s r).2.1) := by
   unfold handle handleFlow
+  rw [reinit_eq]
+  unfold handleFrom
   simp only [hp, Bool.not_true, Bool.false_eq_true, if_false, hookList_before, hookList_after]
   have hb := runBefore_flow (enumFrom 0 app.before) RState.init
   rcases hrb : runBefore (enumFrom 0 app.before) RState.init with ⟨st1, ev1, fl1⟩
